@@ -135,6 +135,33 @@ CHECKS.update({
     ),
 })
 
+CHECKS.update({
+    "C06": dict(
+        category="fault_enumeration",
+        technique="exhaustive enumeration of a fully indexed mutation family (operator, offset, value) around one seed per registered format x {own format, forced, probe} plus every seed and its first 64 truncations under all formats with force; each case decoded, dumped and converted in-process, worker deaths attributed to the announced case",
+        text="Seeds: for each of the 132 registered formats the smallest corpus file or embedded sub-tree that decodes as that format (17 formats without a seed are listed in evidence) plus literal seeds and the empty file. Family: truncation to every length 0..64 and len-8..len-1; every byte at offset < 64 overwritten with 00, ff, 7f, 80, b^01, b^80; every aligned 2 and 4 byte window set to 00.., ff.., 7fff.., 8000.. in both endians; removal and duplication of 1/4/16/512 byte blocks (thorough: offsets < 512, three seeds). Each case runs decode + verbose dump + tovalue on one long lived interpreter per worker with the case announced first, so a Go panic (returned as a value) or a fatal runtime error killing the worker (out of memory under the 16 GiB address space ceiling, stack overflow) is attributed to exactly one case; every distinct faulting site is re-run 5 times and through the process-like entry (exit status, stderr). Enumeration is offset major so a deadline leaves 'all operators at offsets < X'.",
+        design_ref="§C06",
+        note="Non-termination and memory growth are not judged by a clock: a case exceeding 3 s CPU / 1 GiB heap is inconclusive and listed, never an alarm. A deliberately panicking harness format must be re-panicked by recoverfn (guards against a recover that swallows everything).",
+        engine="enum",
+    ),
+    "C08": dict(
+        category="exploration",
+        technique="exhaustive enumeration of read-only query pipelines (<= 2 nodes, thorough 3, from a 37 node family with full parameter pools) applied to every value of trees covering every scalar wrapper kind x sym/description variant; differential v|q vs v|tovalue|q plus an independent reference value and a structural oracle on the JQValue methods",
+        text="Harness formats build every scalar kind (uint incl. > 2^63, sint incl. min int64, big int, float incl. -0/inf/nan, string, bool, null, scalar.Any holding arrays/objects, raw bits aligned/unaligned/invalid UTF-8, synthetic, gap fields) plain, with description and with a sym of every jq type, inside structs, arrays, nested buffers and sub-formats; plus json-format trees (what fromjson returns) and one corpus tree per format family (54 trees, 3052 values). Every pipeline of <= 2 query nodes (type, length, keys, has, index, slice, iterate, paths, tojson/tostring/tonumber, comparisons, sort/unique, add, arithmetic, string functions, to_entries, .., map, select, getpath, ...) is applied to every value and to its tovalue; outputs and error positions must agree after exactly the four documented differences. tovalue itself is compared with the JSON written in the plan; JQValueKeys/Has/Each/Length/ToGoJQ must agree with each other.",
+        design_ref="§C08",
+        note="Builtin names are checked against the gojq fork at start. Known findings are in the gojq fork (abs/has/index/getpath/object key/slice bound/isnan do not unwrap JQValues; min int64 negation wraps on the JSON side) or pinned by goldens (string index outside gives \"\").",
+        engine="enum",
+    ),
+    "C13": dict(
+        category="fault_enumeration",
+        technique="exhaustive product of a boundary value pool (input x arguments, per-function option objects derived from Go struct fields and jq parameter accesses) over every function fq adds, enumerated from the registry and bundled jq sources at run time; oracle: Go panic, worker death or uncatchable error",
+        text="769 name/arity pairs computed at run time (53 Go registered functions, 164 public jq defs, 552 generated decode functions). Arity <= 2: full product of input x arguments over 30 base values (49 thorough) plus one single-member option object per option key and value; display/2 and eval/4 use verified pairwise covering arrays in quick. Each call is INPUT | try F(ARGS) catch . on an interpreter seeded with the state fq -n sets up; a Go panic (reproduced 5 times in a fresh interpreter), a worker death or an error escaping try is a violation keyed (function/arity, panic site).",
+        design_ref="§C13",
+        note="Cases exceeding 2 s CPU / 4 GiB are inconclusive (to_radix(1;..) loops, display with line_bytes 2^31), never alarms. Decode functions only see the pool (no per-format valid samples).",
+        engine="enum",
+    ),
+})
+
 NOT_YET = {
 }
 
